@@ -174,18 +174,20 @@ Fixpoint store1 (m : option Z) (l : list txs) : list txs :=
               then x :: store1 (Some (x_t x)) r else store1 m r
   end.
 
+Lemma of_series_cons s x l :
+  of_series s (x :: l) = if x_ser x =? s then x :: of_series s l else of_series s l.
+Proof. reflexivity. Qed.
+
 Lemma store_proj l : forall m s, of_series s (store m l) = store1 (m s) (of_series s l).
 Proof.
-  induction l as [|x l IH]; intros m s; [reflexivity|]. cbn [store].
-  unfold of_series at 2. cbn [filter]. fold (of_series s l).
+  induction l as [|x l IH]; intros m s; [reflexivity|]. cbn [store]. rewrite (of_series_cons s x l).
   destruct (Z.eqb_spec (x_ser x) s) as [E|E].
   - subst s. cbn [store1]. destruct (match m (x_ser x) with None => true | Some v => v <? x_t x end).
-    + unfold of_series at 1. cbn [filter]. rewrite Z.eqb_refl. fold (of_series (x_ser x)).
-      f_equal. rewrite IH. now rewrite Z.eqb_refl.
+    + rewrite of_series_cons, Z.eqb_refl. f_equal. rewrite IH. now rewrite Z.eqb_refl.
     + apply IH.
   - destruct (match m (x_ser x) with None => true | Some v => v <? x_t x end).
-    + unfold of_series at 1. cbn [filter]. destruct (Z.eqb_spec (x_ser x) s); [contradiction|].
-      fold (of_series s). rewrite IH. destruct (Z.eqb_spec s (x_ser x)); [congruence|reflexivity].
+    + rewrite of_series_cons. destruct (Z.eqb_spec (x_ser x) s); [contradiction|].
+      rewrite IH. destruct (Z.eqb_spec s (x_ser x)); [congruence|reflexivity].
     + apply IH.
 Qed.
 
